@@ -1300,7 +1300,8 @@ def gen_odd(tier):
     t = tier == "thorough"
     reqs = (("res", "auto"), ("res", "fit"), ("shape", 50))
     yield from itertools.product(tuple(ODD), ("nu", "rot"), SRC_KINDS, ("eu",) + (("au",) if t else ()), ("whole",), DST4,
-                                 reqs + ((("res", "same"), ("shape", (7, 40))) if t else ()), ("default",), TIGHT, (0.01,))
+                                 reqs + ((("res", "same"), ("shape", (7, 40))) if t else ()), ("default",), TIGHT if t else (False,),
+                                 (0.01,))
     yield from itertools.product(("thin-row", "thin-col") + (("tiny", "portrait") if t else ()), ("r005",), SRC_KINDS, ("eu",), ("whole",),
                                  DST4, (("res", "auto"), ("res", "fit")) + ((("res", "same"), ("shape", 50)) if t else ()),
                                  ("default",), (False,) + ((True,) if t else ()), (0.01,))
@@ -1621,7 +1622,7 @@ def apply_preop(op, gb, crs_arg, other, kw):
 def gen_lazy(tier):
     t = tier == "thorough"
     reqs = (("res", "auto"), ("res", "fit"), ("shape", 50))
-    srcs = range(len(LAZY_SRC))
+    srcs = range(len(LAZY_SRC)) if t else (0, 1)
     yield from itertools.product(PREOPS, srcs, DST4, reqs + ((("res", "same"), ("res", ("s", 1.0))) if t else ()),
                                  ("cog",) + (("to_crs",) if t else ()))
     yield from itertools.product(PREOPS, srcs, ("utm",) + (("utm-s",) if t else ()), (("res", "auto"),), ("cog",))
